@@ -232,7 +232,7 @@ fn run_typed<T: Payload>(p: &Program, cfg: &RunCfg, m: Option<Arc<Explored>>) ->
             let exec_no = STATS.with(|s| {
                 let mut s = s.borrow_mut();
                 s.executions += 1;
-                s.outcomes.insert(hist::outcome_of(&h));
+                s.outcomes.insert(hist::outcome_with_wakes(&h, p.threads.len() == 1));
                 s.hist_shapes.insert(shape_hash(&h));
                 if s.sample.is_none() {
                     s.sample = Some(h.clone());
